@@ -16,6 +16,7 @@
 //	                                                              RedemptionTask.FindPendingRedemptions
 //	   events : block:wallet:script      pend : wallet:script:age (age E = lookup fails; absent = not pending)
 //	   delays : wallet:script:seconds (E = fails; absent = 0)
+//	full <checklist> <dsweep args w/o wallet> <rtask args w/o wallet>   Generate over the REAL sweep and redemption tasks
 //	gen <tasks> <checklist>                                       ProposalGenerator.Generate
 //	   tasks : action:outcome (p = proposal, e = empty, x = error)   checklist : actions
 //
@@ -153,6 +154,9 @@ type fakeChain struct {
 	redMinAge     uint32
 	redTimeout    uint32
 	lastRedFilter *tbtc.RedemptionRequestedEventFilter
+
+	sweepMax, redMax uint16
+	validated        int
 }
 
 func (c *fakeChain) at(age int64) time.Time { return time.Unix(c.base.Unix()-age, 0) }
@@ -303,6 +307,36 @@ func (b *fakeBtc) GetTransactionConfirmations(h bitcoin.Hash) (uint, error) {
 		return 0, fmt.Errorf("fake: confirmations failure")
 	}
 	return uint(c.age), nil
+}
+
+
+// ---- methods used only when the real tasks run inside Generate (op `full`) ----
+
+func (c *fakeChain) GetDepositSweepMaxSize() (uint16, error) { return c.sweepMax, nil }
+
+func (c *fakeChain) GetRedemptionMaxSize() (uint16, error) { return c.redMax, nil }
+
+func (c *fakeChain) GetDepositParameters() (uint64, uint64, uint64, uint32, error) {
+	return 0, 0, 1000000000, 0, nil
+}
+
+func (c *fakeChain) ValidateDepositSweepProposal(w [20]byte, p *tbtc.DepositSweepProposal, extra []struct {
+	*tbtc.Deposit
+	FundingTx *bitcoin.Transaction
+}) error {
+	c.validated++
+	return nil
+}
+
+func (c *fakeChain) ValidateRedemptionProposal(w [20]byte, p *tbtc.RedemptionProposal) error {
+	c.validated++
+	return nil
+}
+
+func (b *fakeBtc) EstimateSatPerVByteFee(blocks uint32) (int64, error) { return 1, nil }
+
+func (b *fakeBtc) GetTransaction(h bitcoin.Hash) (*bitcoin.Transaction, error) {
+	return &bitcoin.Transaction{}, nil
 }
 
 // ---- parsing ------------------------------------------------------------------
@@ -625,6 +659,74 @@ func execGen(f []string) (string, string) {
 	return res + " " + hx.JoinInts(runs), tag
 }
 
+// full <checklist> <depMax> <depMinAge> <depEvents> <reqs> <confs> <current> <redLimit> <timeout> <redMinAge> <avg> <redEvents> <pend> <delays>
+// The REAL DepositSweepTask and RedemptionTask (Run: discovery, fee estimation, proposal
+// validation) inside the real Generate, wallet 1. Heartbeat / moving funds actions are unsupported.
+func execFull(f []string) (string, string) {
+	c := &fakeChain{base: time.Now()}
+	c.sweepMax = uint16(hx.AtoU64(f[2]))
+	c.parseDep(f[3], f[4], f[5])
+	btc := parseConfs(f[6])
+	c.current = hx.AtoU64(f[7])
+	c.redMax = uint16(hx.AtoU64(f[8]))
+	c.redTimeout = uint32(hx.AtoU64(f[9]))
+	c.redMinAge = uint32(hx.AtoU64(f[10]))
+	c.avgBlockTime = time.Duration(hx.AtoU64(f[11])) * time.Second
+	c.parseRed(f[12], f[13], f[14])
+	var checklist []tbtc.WalletActionType
+	for _, a := range hx.ParseU64s(f[1]) {
+		checklist = append(checklist, tbtc.WalletActionType(a))
+	}
+	pg := tbtcpg.VerifC33NewProposalGenerator([]tbtcpg.ProposalTask{
+		tbtcpg.NewDepositSweepTask(c, btc),
+		tbtcpg.NewRedemptionTask(c, btc),
+	})
+	prop, err := pg.Generate(&tbtc.CoordinationProposalRequest{
+		WalletPublicKeyHash: walletPKH(1),
+		ActionsChecklist:    checklist,
+	})
+	if err != nil {
+		idx := "?"
+		switch {
+		case strings.HasPrefix(err.Error(), "error while running proposal task [DepositSweep]"):
+			idx = "0"
+		case strings.HasPrefix(err.Error(), "error while running proposal task [Redemption]"):
+			idx = "1"
+		}
+		if prop != nil {
+			return "err-with-proposal -", "full-weird"
+		}
+		return "err:" + idx + " " + strings.TrimPrefix(errClass(err), "err:"), "full-error"
+	}
+	switch p := prop.(type) {
+	case *tbtc.DepositSweepProposal:
+		if len(p.DepositsKeys) != len(p.DepositsRevealBlocks) || c.validated != 1 || p.SweepTxFee == nil || p.SweepTxFee.Sign() <= 0 {
+			return "sweep-malformed -", "full-weird"
+		}
+		var items []string
+		for i, k := range p.DepositsKeys {
+			items = append(items, fmt.Sprintf("%d:%d:%s", txID(k.FundingTxHash), k.FundingOutputIndex, p.DepositsRevealBlocks[i].String()))
+		}
+		return "sweep " + hx.JoinStrs(items), "full-sweep"
+	case *tbtc.RedemptionProposal:
+		if c.validated != 1 || p.RedemptionTxFee == nil || p.RedemptionTxFee.Sign() <= 0 {
+			return "redeem-malformed -", "full-weird"
+		}
+		var items []string
+		for _, sc := range p.RedeemersOutputScripts {
+			items = append(items, fmt.Sprint(scriptID(sc)))
+		}
+		tag := "full-redeem"
+		if len(checklist) > 0 && checklist[0] != tbtc.ActionRedemption {
+			tag += "+full-fallthrough"
+		}
+		return "redeem " + hx.JoinStrs(items), tag
+	case *tbtc.NoopProposal:
+		return "noop -", "full-noop"
+	}
+	return "other-proposal -", "full-weird"
+}
+
 func exec(op string) (string, string) {
 	f := strings.Fields(op)
 	switch {
@@ -638,6 +740,8 @@ func exec(op string) (string, string) {
 		return execRed(f, true)
 	case len(f) == 3 && f[0] == "gen":
 		return execGen(f)
+	case len(f) == 15 && f[0] == "full":
+		return execFull(f)
 	}
 	return "bad-op", "bad"
 }
@@ -660,8 +764,8 @@ func genDep(r *hx.Rng, sweepAPI bool) string {
 	}
 	minAge := int64(hx.Pick(r, []int{0, 60, 3600, 7200, 86400}))
 	ne := r.Range(0, 8)
-	if r.Chance(1, 10) {
-		ne = r.Range(8, 20)
+	if r.Chance(1, 6) {
+		ne = r.Range(13, 30) // more than 12: Go's unstable sort leaves insertion sort here
 	}
 	type dk struct {
 		tx  uint64
@@ -886,6 +990,44 @@ func genGen(r *hx.Rng) string {
 	return fmt.Sprintf("gen %s %s", hx.JoinStrs(tasks), hx.JoinInts(cl))
 }
 
+func genFull(r *hx.Rng) string {
+	var dep []string
+	for {
+		dep = strings.Fields(genDep(r, true)) // dsweep wallet max minAge events reqs confs
+		if dep[1] == "1" && dep[3] != "E" && dep[4] != "E" {
+			break
+		}
+	}
+	var red []string
+	for {
+		red = strings.Fields(genRed(r, true)) // rtask wallet cur limit timeout minAge avg events pend delays
+		if red[1] == "1" && red[7] != "E" {
+			break
+		}
+	}
+	if r.Chance(1, 3) { // nothing to sweep: the generator falls through to the redemption task
+		dep[4], dep[5], dep[6] = "-", "-", "-"
+	}
+	if r.Chance(1, 6) {
+		red[7], red[8], red[9] = "-", "-", "-"
+	}
+	var cl []int
+	switch r.Intn(6) {
+	case 0:
+		cl = []int{3, 2}
+	case 1:
+		cl = []int{1, 2, 3, 4}
+	case 2:
+		cl = []int{2}
+	case 3:
+		cl = []int{3}
+	default:
+		cl = []int{2, 3}
+	}
+	return fmt.Sprintf("full %s %s %s %s %s %s %s %s %s %s %s %s %s %s", hx.JoinInts(cl),
+		dep[2], dep[3], dep[4], dep[5], dep[6], red[2], red[3], red[4], red[5], red[6], red[7], red[8], red[9])
+}
+
 func gen(r *hx.Rng, n int, tier string) []string {
 	var ops []string
 	for i := 0; i < n; i++ {
@@ -898,6 +1040,8 @@ func gen(r *hx.Rng, n int, tier string) []string {
 			ops = append(ops, genRed(r, false))
 		case c < 16:
 			ops = append(ops, genRed(r, true))
+		case c < 18:
+			ops = append(ops, genFull(r))
 		default:
 			ops = append(ops, genGen(r))
 		}
